@@ -170,9 +170,16 @@ func (s *BadSmellListener) EnterFieldDeclaration(ctx *FieldDeclarationContext) {
 }
 
 func (s *BadSmellListener) EnterLocalVariableDeclaration(ctx *LocalVariableDeclarationContext) {
-	typ := ctx.GetChild(0).(antlr.ParseTree).GetText()
-	variableName := ctx.GetChild(1).GetChild(0).GetChild(0).(antlr.ParseTree).GetText()
-	localVars[variableName] = typ
+	// the type and the declarators are looked up by rule, not by position: modifiers (final, annotations)
+	// may precede the type, and `var x = ...` has neither
+	if ctx.TypeType() == nil || ctx.VariableDeclarators() == nil {
+		return
+	}
+	typ := ctx.TypeType().GetText()
+	for _, declarator := range ctx.VariableDeclarators().(*VariableDeclaratorsContext).AllVariableDeclarator() {
+		variableName := declarator.(*VariableDeclaratorContext).VariableDeclaratorId().GetText()
+		localVars[variableName] = typ
+	}
 }
 
 func (s *BadSmellListener) EnterMethodDeclaration(ctx *MethodDeclarationContext) {
